@@ -3,6 +3,7 @@ package main
 import (
 	"fmt"
 	"go/ast"
+	"go/parser"
 	"go/token"
 	"go/types"
 	"sort"
@@ -747,17 +748,214 @@ func (u *Unit) havocLoop(e *Ev, n ast.Node) {
 		e.st.vars[v] = old
 	}
 	if heapWrite {
+		names, all := u.loopHeapWrites(e, n)
+		if !all {
+			// make sure the named heaps exist on this path so that they can be havoced
+			for h, srt := range names {
+				if _, ok := e.st.heaps[h]; !ok && srt != "" {
+					e.heap(h, srt)
+				}
+			}
+		}
 		for _, h := range sortedHeapNames(e.st.heaps) {
 			t := e.st.heaps[h]
 			if strings.HasPrefix(h, "G$") {
 				continue
 			}
+			if _, ok := names[h]; !all && !ok {
+				continue
+			}
 			nm := u.g.freshName(h)
 			e.st.declare(nm, t.Sort)
 			e.st.heaps[h] = Term{S: nm, Sort: t.Sort, T: t.T}
+			u.noteWrite(h)
 		}
 		e.st.named["$heapsHavoced"] = Term{S: "true", Sort: sBool}
 	}
+}
+
+// loopHeapWrites over-approximates the heaps a loop may write: element heaps of indexed slices,
+// object heaps of fields stored through pointers, map heaps, and the modifies clauses of callees.
+func (u *Unit) loopHeapWrites(e *Ev, n ast.Node) (map[string]string, bool) {
+	names := map[string]string{}
+	all := false
+	info := u.g.P.Info
+	addStore := func(x ast.Expr) {
+		for {
+			switch l := x.(type) {
+			case *ast.ParenExpr:
+				x = l.X
+				continue
+			case *ast.IndexExpr:
+				xt := info.Types[l.X].Type
+				if xt == nil {
+					all = true
+					return
+				}
+				switch ut := xt.Underlying().(type) {
+				case *types.Slice:
+					es := e.sortOf(ut.Elem())
+					names["A$"+sanitize(es)] = fmt.Sprintf("(Array Int (Array Int %s))", es)
+				case *types.Map:
+					base := e.mapHeapBase(ut)
+					ks, vs := e.mapTypeSorts(ut)
+					names[base+"$dom"] = fmt.Sprintf("(Array Int (Array %s Bool))", ks)
+					names[base+"$val"] = fmt.Sprintf("(Array Int (Array %s %s))", ks, vs)
+					names[base+"$card"] = "(Array Int Int)"
+				default:
+					x = l.X
+					continue
+				}
+				return
+			case *ast.SelectorExpr:
+				xt := info.Types[l.X].Type
+				if xt == nil {
+					all = true
+					return
+				}
+				if pt, ok := xt.Underlying().(*types.Pointer); ok {
+					s := e.sortOf(pt.Elem())
+					names["H$"+sanitize(s)] = fmt.Sprintf("(Array Int %s)", s)
+					return
+				}
+				x = l.X
+				continue
+			case *ast.StarExpr:
+				xt := info.Types[l.X].Type
+				if pt, ok := xt.Underlying().(*types.Pointer); ok {
+					s := e.sortOf(pt.Elem())
+					names["H$"+sanitize(s)] = fmt.Sprintf("(Array Int %s)", s)
+				} else {
+					all = true
+				}
+				return
+			case *ast.Ident:
+				if v, ok := info.Uses[l].(*types.Var); ok {
+					if loc, ok := e.st.boxed[v]; ok && loc.Kind == "heap" {
+						names[loc.Name] = ""
+					}
+				}
+				return
+			}
+			all = true
+			return
+		}
+	}
+	ast.Inspect(n, func(x ast.Node) bool {
+		switch s := x.(type) {
+		case *ast.FuncLit:
+			return false
+		case *ast.AssignStmt:
+			for _, l := range s.Lhs {
+				addStore(l)
+			}
+		case *ast.IncDecStmt:
+			addStore(s.X)
+		case *ast.CallExpr:
+			if tv, ok := info.Types[s.Fun]; ok && tv.IsType() {
+				return true
+			}
+			var fn *types.Func
+			switch f := s.Fun.(type) {
+			case *ast.Ident:
+				switch o := info.Uses[f].(type) {
+				case *types.Func:
+					fn = o
+				case *types.Builtin:
+					switch o.Name() {
+					case "append", "copy":
+						if len(s.Args) > 0 {
+							if st, ok := info.Types[s.Args[0]].Type.Underlying().(*types.Slice); ok {
+								es := e.sortOf(st.Elem())
+								names["A$"+sanitize(es)] = fmt.Sprintf("(Array Int (Array Int %s))", es)
+							}
+						}
+					case "delete":
+						if mt, ok := info.Types[s.Args[0]].Type.Underlying().(*types.Map); ok {
+							base := e.mapHeapBase(mt)
+							ks, _ := e.mapTypeSorts(mt)
+							names[base+"$dom"] = fmt.Sprintf("(Array Int (Array %s Bool))", ks)
+							names[base+"$card"] = "(Array Int Int)"
+						}
+					}
+					return true
+				default:
+					all = true
+					return true
+				}
+			case *ast.SelectorExpr:
+				if sel := info.Selections[f]; sel != nil {
+					if sel.Kind() == types.MethodVal {
+						fn, _ = sel.Obj().(*types.Func)
+						if fn != nil {
+							if _, isIface := fn.Type().(*types.Signature).Recv().Type().Underlying().(*types.Interface); isIface {
+								all = true
+								return true
+							}
+						}
+					} else {
+						all = true
+						return true
+					}
+				} else if o, ok := info.Uses[f.Sel].(*types.Func); ok {
+					fn = o
+				}
+			default:
+				all = true
+				return true
+			}
+			if fn == nil {
+				all = true
+				return true
+			}
+			if fn.Pkg() != u.g.P.Pkg.Types {
+				if inf, ok := externals[extKey(fn)]; ok && len(inf.mutates) > 0 {
+					all = true
+				}
+				return true
+			}
+			b := u.g.C.forFunc(funcKeyOf(fn))
+			if b == nil {
+				all = true
+				return true
+			}
+			if hasFlag(b, "inline") || hasFlag(b, "pure") {
+				return true
+			}
+			for _, c := range b.clauses("modifies") {
+				for _, item := range splitTopSpaces(c.Text) {
+					switch {
+					case item == "*":
+						all = true
+					case strings.HasPrefix(item, "elems(") || strings.HasPrefix(item, "fields("):
+						fdecl := u.g.P.Funcs[funcKeyOf(fn)]
+						var t types.Type
+						if fdecl != nil && fdecl.Body != nil {
+							inner := item[strings.Index(item, "(")+1 : len(item)-1]
+							t = u.g.specTypeOf(inner, fdecl.Body.Lbrace+1)
+						}
+						if t == nil {
+							all = true
+							break
+						}
+						if st, ok := t.Underlying().(*types.Slice); ok && strings.HasPrefix(item, "elems(") {
+							es := e.sortOf(st.Elem())
+							names["A$"+sanitize(es)] = fmt.Sprintf("(Array Int (Array Int %s))", es)
+						} else if pt, ok := t.Underlying().(*types.Pointer); ok && strings.HasPrefix(item, "fields(") {
+							ss := e.sortOf(pt.Elem())
+							names["H$"+sanitize(ss)] = fmt.Sprintf("(Array Int %s)", ss)
+						} else {
+							all = true
+						}
+					default:
+						names[item] = ""
+					}
+				}
+			}
+		}
+		return true
+	})
+	return names, all
 }
 
 func (u *Unit) checkInvariants(lb *Block, st *State, pos token.Pos, what string, loopEntry *State) {
@@ -935,13 +1133,46 @@ func (u *Unit) addObl(name string, props []string, st *State, goal string, text 
 // addMerged adds one obligation that is the conjunction over several paths.
 func (u *Unit) addMerged(name string, props []string, parts []string, text string) *Obligation {
 	o := &Obligation{Name: name, Props: props, Goal: smtAnd(parts...), Text: text, Unit: u.name}
+	var lparts []string
+	light := false
+	for _, p := range parts {
+		if l, ok := lightImp[p]; ok {
+			lparts = append(lparts, l)
+			light = true
+		} else {
+			lparts = append(lparts, p)
+		}
+	}
+	if light {
+		o.LightGoal = smtAnd(lparts...)
+	}
 	o.unit = u
 	u.g.Obls = append(u.g.Obls, o)
 	return o
 }
 
+// lightImp maps a path implication to its weakened form without heavy hypotheses.
+var lightImp = map[string]string{}
+
+func isHeavyHyp(h string) bool {
+	return strings.Contains(h, "(forall") && (strings.Contains(h, "toF64") || strings.Contains(h, "fromF_"))
+}
+
 func pathImp(pc []string, goal string) string {
-	return smtImp(smtAnd(pc...), goal)
+	full := smtImp(smtAnd(pc...), goal)
+	var lpc []string
+	dropped := false
+	for _, h := range pc {
+		if isHeavyHyp(h) {
+			dropped = true
+			continue
+		}
+		lpc = append(lpc, h)
+	}
+	if dropped {
+		lightImp[full] = smtImp(smtAnd(lpc...), goal)
+	}
+	return full
 }
 
 func sortedVarNames(m map[string]Term) []string {
@@ -1011,4 +1242,59 @@ func (u *Unit) nonFreshAxioms(heap, sort string) {
 	for _, c := range g.refComponents(sel, gt, u.bv, 0) {
 		u.defs = append(u.defs, fmt.Sprintf("(forall (%s) (! (not (fresh$ %s)) :pattern (%s)))", binder, c, c))
 	}
+}
+
+// specTypeOf infers the Go type of a simple spec expression (identifiers, selectors, indexing)
+// at a source position, without evaluating it.
+func (g *Gen) specTypeOf(expr string, pos token.Pos) types.Type {
+	x, err := parser.ParseExpr(expr)
+	if err != nil {
+		return nil
+	}
+	var rec func(x ast.Expr) types.Type
+	rec = func(x ast.Expr) types.Type {
+		switch n := x.(type) {
+		case *ast.ParenExpr:
+			return rec(n.X)
+		case *ast.Ident:
+			sc := g.P.Pkg.Types.Scope().Innermost(pos)
+			if sc == nil {
+				return nil
+			}
+			_, obj := sc.LookupParent(n.Name, pos)
+			if v, ok := obj.(*types.Var); ok {
+				return v.Type()
+			}
+		case *ast.SelectorExpr:
+			t := rec(n.X)
+			if t == nil {
+				return nil
+			}
+			obj, _, _ := types.LookupFieldOrMethod(t, true, g.P.Pkg.Types, n.Sel.Name)
+			if v, ok := obj.(*types.Var); ok {
+				return v.Type()
+			}
+		case *ast.IndexExpr:
+			t := rec(n.X)
+			if t == nil {
+				return nil
+			}
+			switch u := t.Underlying().(type) {
+			case *types.Slice:
+				return u.Elem()
+			case *types.Map:
+				return u.Elem()
+			}
+		case *ast.StarExpr:
+			t := rec(n.X)
+			if t == nil {
+				return nil
+			}
+			if p, ok := t.Underlying().(*types.Pointer); ok {
+				return p.Elem()
+			}
+		}
+		return nil
+	}
+	return rec(x)
 }
